@@ -96,6 +96,7 @@ package types
 //@   ensures [top-level-kept] i.Manifests == old(i.Manifests) && forall k: int :: 0 <= k && k < len(i.Manifests) ==> i.Manifests[k] == old(i.Manifests[k])
 //@   ensures [children-kept] forall x: digest.Digest :: old(hasChild(i, x)) ==> hasChild(i, x)
 //@   ensures [children-added] forall k: int :: 0 <= k && k < len(children) ==> hasChild(i, children[k].Digest)
+//@   ensures [annotations-kept] i.Annotations == old(i.Annotations) && frame_maps(string, string)
 
 //@ func (i Index) GetDesc(arg string) (res Descriptor, err error)
 //@   props C18
